@@ -89,6 +89,13 @@ class Equation:
         """
         return self.es_tensors[0]
 
+    def get_vars_in_update(self) -> List[List[bool]]:
+        """
+        Get, for each variable of each term, whether it is used in the update
+        (a variable may appear in more than one term)
+        """
+        return self.vars_in_update
+
     def get_tensor(self, root_name: str) -> Tensor:
         """
         Get the tensor specified by this name
@@ -159,16 +166,19 @@ class Equation:
 
         self.factor_order: Dict[str, Tuple[int, int]] = {}
         self.in_update: List[List[bool]] = []
+        self.vars_in_update: List[List[bool]] = []
         for i, term in enumerate(self.equation.find_data("times")):
             self.term_tensors.append([])
             self.term_vars.append([])
             self.in_update.append([])
+            self.vars_in_update.append([])
 
             for var in term.find_data("var"):
                 self.term_vars[-1].append(ParseUtils.next_str(var))
                 self.factor_order[self.term_vars[-1][-1]
                                   ] = (i, len(self.in_update[-1]))
                 self.in_update[-1].append(True)
+                self.vars_in_update[-1].append(True)
 
             for tensor in term.find_data("tensor"):
                 self.term_tensors[-1].append(ParseUtils.next_str(tensor))
@@ -181,10 +191,12 @@ class Equation:
             self.term_tensors.append([])
             self.term_vars.append([])
             self.in_update.append([])
+            var_pos = []
 
             for child in take.children:
                 if isinstance(child, Tree):
                     if child.data == "var":
+                        var_pos.append(len(self.in_update[-1]))
                         self.term_vars[-1].append(ParseUtils.next_str(child))
                         self.factor_order[self.term_vars[-1][-1]] = (
                             len(self.term_tensors) - 1, len(self.in_update[-1]))
@@ -210,6 +222,9 @@ class Equation:
                     # Note: there is no way to test this error, bad
                     # factors should be caught by the parser
                     raise ValueError("Unknown factor")  # pragma: no cover
+
+            self.vars_in_update.append(
+                [self.in_update[-1][pos] for pos in var_pos])
 
     def __build_einsum_ranks(self) -> None:
         """
